@@ -7,13 +7,27 @@ import MindsVerif.Gen.Tables_mindsdb
 /-!
 # C16 — queries embedded in MindsDB commands are stored verbatim (up to whitespace and comments)
 
-Property theorems only.  Model: `MindsVerif.TokStr` (`tokens_to_string`, the four `raw_query` actions,
-the four value-rewriting lexer actions), `MindsVerif.RawQueryGram` (Φ16 over the exported productions).
+Property theorems only.  Models: `MindsVerif.TokStr` (`tokens_to_string` as repaired in /repo bd184d7 — a token's `lineno` is the
+line it starts on, the loop adds the newlines inside the token's value —, the four `raw_query` actions, the token actions under
+the regenerated configuration `Gen.C16Data.actCfg`), `MindsVerif.RawQueryGram` (Φ16 over the exported productions),
+`MindsVerif.RawQueryLink` (structure of WF derivation trees under Φ16), `MindsVerif.MultiWord` (multi-word keyword regexes).
 
-A token is `{type, value, src, lineno, index}`: `src` = the characters the user wrote, `value` = what the
-lexer action left in `t.value`.  "Verbatim up to whitespace and comments" is `verbatim toks`: the token
-*sources* in order, every gap between two tokens replaced by blank material of the same length
-(blanks; `\n` + blanks when the line changed).  `C16_layout_source` relates this to the inner text itself.
+A token is `{type, value, src, lineno, index}`: `src` = the characters the user wrote, `value` = what the lexer action left in
+`t.value` (for the live lexer `value = src`: `C16_live_cfg`).  "Verbatim up to whitespace and comments" is `verbatim toks`: the
+token *sources* in order, every gap between two tokens replaced by blank material of the same length (blanks; `\n` + blanks when
+the next token does not start on the line the previous one ends on).
+
+Current state of the statements
+* main, live configuration, all token lists incl. tokens that span lines: `C16`, `C16_command`; for every layout of the inner
+  text: `C16_review_layout_source_live`, `C16_review_storedSpec_length`; across the layers (LR driver · grammar · actions ·
+  `tokens_to_string`): `C16_link` (non-vacuous: `C16_link_nonvacuous`).
+* shape theorems for any configuration: `C16_partial`, `C16_layout`, `C16_closed_form`, `C16_columns`, `C16_layout_source`.
+* kernel checks on regenerated data: `phi16_mindsdb`, `phi_mindsdb`, `C16_live_cfg`, `pin_*`, `mw_parsed`, `mw_plus_kinds`.
+* `sepStable_*`: decided on a listed set of sample gaps (a sample, not a ∀-statement).
+* regression / history (about code that no longer exists, named `C16_regress_*` / `C16_regression_*`): the lexer whose four
+  actions rewrote `value` (`pinnedCfg`), the `tokens_to_string` body without the `line_num +=` statement.
+Not a theorem: that re-lexing the stored text yields the same tokens / the same tree (no model of the full scanner); this is
+the impl-level oracle of `tools/props/c16.py`.
 -/
 namespace MindsVerif.Props.C16
 open MindsVerif.TokStr MindsVerif.Gen MindsVerif.LR MindsVerif.RawQueryLink
@@ -27,7 +41,8 @@ def LexInv (c : ActCfg) (toks : List Tok) : Prop :=
 /-- **Full statement** (model level): whatever token list the lexer hands to an embedding command, the stored
 text is the user's characters with only the gaps blanked.  `c` says which token actions rewrite `value`.
 TRUE for the live lexer (`C16 : C16_full Gen.C16Data.actCfg`, via `C16_fixed : C16_full fixedCfg`); FALSE for the
-lexer before commit 5f4cdd1 (`C16_full_false : ¬ C16_full pinnedCfg`, history). -/
+lexer before commit 5f4cdd1 (`C16_regress_pinned_full_false : ¬ C16_full pinnedCfg`, regression theorem about that old
+variant). -/
 def C16_full (c : ActCfg) : Prop := ∀ toks : List Tok, LexInv c toks → tokensToString toks = verbatim toks
 
 /-- hypothesis of the partial theorem: no token of the four rewriting classes is actually changed by its action
@@ -238,7 +253,7 @@ theorem mw_plus_kinds : (mwOfSep (· == .plus)).map (·.1) = ["IS_NOT", "NOT_EXI
 /-- comment gaps (with: does `lineno` change inside) -/
 def commentGaps : List (Str × Bool) :=
   [(" /*c*/ ".toList, false), ("/**/".toList, false), (" -- c\n".toList, true), ("--\n".toList, true),
-   ("/* a\nb */".toList, false), ("\n/*c*/\n ".toList, true)]
+   ("/* a\nb */".toList, true), ("\n/*c*/\n ".toList, true), ("\t/*c*/\t".toList, false), ("\t--\t\n\t".toList, true)]
 
 /-- witnesses (not stable): for each `[\s]+` keyword and each comment gap, `W1<gap>W2` is NOT the keyword token but the
 stored text `W1<blanks>W2` IS -/
@@ -285,16 +300,16 @@ def w5 : List Tok := [lexTok pinnedCfg otherTy "select".toList 1 0, lexTok pinne
 
 instance (c : ActCfg) (toks : List Tok) : Decidable (LexInv c toks) := by unfold LexInv; infer_instance
 
-theorem C16_witness_1 : LexInv pinnedCfg w1 ∧ tokensToString w1 = "name = '".toList ∧ verbatim w1 = "name = ''".toList := by decide
-theorem C16_witness_2 : LexInv pinnedCfg w2 ∧ tokensToString w2 = "x = 'it's'  y".toList ∧ verbatim w2 = "x = 'it''s' y".toList := by decide
-theorem C16_witness_3 : LexInv pinnedCfg w3 ∧ tokensToString w3 = "select \"a\"b\"".toList ∧ verbatim w3 = "select \"a\\\"b\"".toList := by decide
-theorem C16_witness_4 : LexInv pinnedCfg w4 ∧ tokensToString w4 = "select v , sys".toList ∧ verbatim w4 = "select @v, @@sys".toList := by decide
-theorem C16_witness_5 : LexInv pinnedCfg w5 ∧ tokensToString w5 = "select ''".toList ∧ verbatim w5 = "select '\\''".toList := by decide
+theorem C16_regress_pinned_1 : LexInv pinnedCfg w1 ∧ tokensToString w1 = "name = '".toList ∧ verbatim w1 = "name = ''".toList := by decide
+theorem C16_regress_pinned_2 : LexInv pinnedCfg w2 ∧ tokensToString w2 = "x = 'it's'  y".toList ∧ verbatim w2 = "x = 'it''s' y".toList := by decide
+theorem C16_regress_pinned_3 : LexInv pinnedCfg w3 ∧ tokensToString w3 = "select \"a\"b\"".toList ∧ verbatim w3 = "select \"a\\\"b\"".toList := by decide
+theorem C16_regress_pinned_4 : LexInv pinnedCfg w4 ∧ tokensToString w4 = "select v , sys".toList ∧ verbatim w4 = "select @v, @@sys".toList := by decide
+theorem C16_regress_pinned_5 : LexInv pinnedCfg w5 ∧ tokensToString w5 = "select ''".toList ∧ verbatim w5 = "select '\\''".toList := by decide
 
-theorem C16_full_false : ¬ C16_full pinnedCfg := by
+theorem C16_regress_pinned_full_false : ¬ C16_full pinnedCfg := by
   intro h
-  have := h w1 C16_witness_1.1
-  rw [C16_witness_1.2.1, C16_witness_1.2.2] at this
+  have := h w1 C16_regress_pinned_1.1
+  rw [C16_regress_pinned_1.2.1, C16_regress_pinned_1.2.2] at this
   exact absurd this (by decide)
 
 /-! ## multi-line tokens (string literals, quoted names, `IS\nNOT`): covered since bd184d7; the function before that
